@@ -162,6 +162,15 @@ fn check(id: &str) -> i32 {
     }
     for (k, n) in &tot.known {
         println!("note: {n} generated cases hit known finding {k} (suppressed by signature)");
+        // a finding whose saved input no longer reproduces (the library is not deterministic in places) but which this
+        // run's search met again is still announced
+        if !known_lines.iter().any(|l| l.contains(&format!(" {k} "))) {
+            if let Some(f) = findings.for_property(id).into_iter().find(|f| &f.id == k && f.status == "open") {
+                let line = format!("KNOWN-FINDING: property={} {} {} (met {n} times by this run's search)", id, f.id, f.what);
+                println!("{line}");
+                known_lines.push(line);
+            }
+        }
     }
     let wall = t0.elapsed().as_secs_f64();
     write_evidence(&ctx, &rep, wall, violations.len(), &known_lines);
